@@ -90,6 +90,12 @@ def run_case(ns, ctx, c):
                 h.update(str(m.num_batches_tracked).encode())
         return h.hexdigest()
 
+    def grads_digest():
+        h = hashlib.sha256()
+        for p_ in opt_params:
+            h.update(b"-" if p_._grad is None else np.ascontiguousarray(p_._grad).tobytes())
+        return h.hexdigest()
+
     def grad_on():
         return bool(T(1.0, requires_grad=True).requires_grad)
 
@@ -98,7 +104,7 @@ def run_case(ns, ctx, c):
 
     # ---- attach the trace
     o_step, o_zero = opt.step, opt.zero_grad
-    opt.step = lambda: (rec("step:before"), o_step(), rec("step"))[-1]
+    opt.step = lambda: (rec("step:before", gdigest=grads_digest()), o_step(), rec("step"))[-1]
     opt.zero_grad = lambda: (o_zero(), rec("zero_grad"))[-1]
     o_train, o_eval = model.train, model.eval
     object.__setattr__(model, "train", lambda: (o_train(), rec("train"))[0])
@@ -124,7 +130,7 @@ def run_case(ns, ctx, c):
     def bw(self_t, grad=None):
         rec("backward:before", grads_clear=all(p._grad is None or not np.any(p._grad) for p in opt_params))
         r = o_backward(self_t, grad) if grad is not None else o_backward(self_t)
-        rec("backward")
+        rec("backward", gdigest=grads_digest())
         return r
     ns.Tensor.backward = bw
     cb = {"train": 0, "val": 0}
@@ -170,43 +176,48 @@ def run_case(ns, ctx, c):
     steps = [e for e in fit_events if e["kind"] == "step"]
     if len(steps) != E * nb:
         viol.append(V("grammar:number-of-updates", f"{len(steps)} optimizer steps, expected epochs x len(train_loader) = {E}x{nb}", config=c))
-    # split the trace into phases by the train()/eval() markers
+    # role of every forward pass: a batch whose loss is back-propagated / followed by an update is a training batch, any other is an
+    # evaluation batch (so the check does not depend on *which* calls put the model into its mode, only on the mode it is in)
+    fidx = [i for i, e in enumerate(fit_events) if e["kind"] == "forward:before"]
+    role = {}
+    for n_, i0 in enumerate(fidx):
+        i1 = fidx[n_ + 1] if n_ + 1 < len(fidx) else len(fit_events)
+        role[i0] = "train" if any(fit_events[k_]["kind"] in ("backward:before", "step:before") for k_ in range(i0, i1)) else "eval"
     phase = None
-    since_zero = None          # number of backward calls since the last zero_grad
-    last_step_idx = -1
+    since_step = 0             # backward calls since the previous optimizer step
+    last_bw_gdigest = None
     train_losses, val_losses = [[]], [[]]
     train_hits, val_hits = [[]], [[]]
     last_fwd = None
-    phase_digest = None
+    block_digest = None        # state digest at the start of the current run of evaluation batches
     n_train_fw = 0
     for i, e in enumerate(fit_events):
         k = e["kind"]
+        if block_digest is not None and e["digest"] != block_digest and k not in ("step", "backward", "zero_grad", "step:before", "backward:before"):
+            viol.append(V("grammar:validation-changed-state", "parameters or running statistics changed during a validation phase", event=i, kind=k))
+            block_digest = e["digest"]
         if k == "train":
-            if phase == "eval":
-                if e["digest"] != phase_digest:
-                    viol.append(V("grammar:validation-changed-state", "parameters or running statistics changed during the validation phase"))
-            phase = "train"
             if not all(e["training"]):
                 viol.append(V("grammar:train()-did-not-reach-all-submodules", "after model.train() some submodule is not in training mode"))
         elif k == "eval":
-            phase = "eval"
-            phase_digest = e["digest"]
             if any(e["training"]):
                 viol.append(V("grammar:eval()-did-not-reach-all-submodules", "after model.eval() some submodule is still in training mode"))
         elif k == "forward:before":
+            phase = role[i]
             if phase == "train":
+                block_digest = None
                 n_train_fw += 1
                 if not all(e["training"]):
                     viol.append(V("grammar:training-forward-not-in-training-mode", "a training batch was computed with (part of) the model in eval mode", event=i))
                 if not e["grad"]:
                     viol.append(V("grammar:training-forward-without-gradients", "a training batch was computed with gradient tracking disabled"))
-            elif phase == "eval":
+            else:
+                if block_digest is None:
+                    block_digest = e["digest"]
                 if any(e["training"]):
                     viol.append(V("grammar:validation-forward-in-training-mode", "a validation batch was computed with (part of) the model in training mode", event=i))
                 if e["grad"]:
                     viol.append(V("grammar:validation-forward-with-gradients", "a validation batch was computed with gradient tracking enabled"))
-            else:
-                viol.append(V("grammar:forward-before-mode-set", "a forward pass ran before train()/eval() was called"))
         elif k == "forward":
             last_fwd = e
             if phase == "eval" and e["requires_grad"]:
@@ -228,16 +239,19 @@ def run_case(ns, ctx, c):
             if not e["grads_clear"]:
                 viol.append(V("grammar:backward-on-uncleared-gradients",
                               "a training backward started while a parameter held by the optimizer still carried a gradient from an earlier batch", event=i))
-            since_zero = (since_zero or 0) + 1
-            if phase != "train":
-                viol.append(V("grammar:backward-outside-training", "backward called during validation"))
+            since_step += 1
+        elif k == "backward":
+            last_bw_gdigest = e["gdigest"]
         elif k == "step:before":
-            if since_zero != 1:
+            if since_step == 1 and e["gdigest"] != last_bw_gdigest:
+                viol.append(V("grammar:gradients-changed-between-backward-and-step",
+                              "the gradients the update was computed from are not the ones the batch's backward produced (cleared or modified in between)", event=i))
+            if since_step != 1:
                 viol.append(V("grammar:step-not-preceded-by-exactly-one-backward",
-                              f"optimizer.step ran after {since_zero or 0} backward calls since the previous step (expected exactly 1)", event=i))
-            if phase != "train" or not all(e["training"]):
+                              f"optimizer.step ran after {since_step} backward calls since the previous step (expected exactly 1)", event=i))
+            if not all(e["training"]):
                 viol.append(V("grammar:step-outside-training-mode", "optimizer.step ran while the model was not in training mode"))
-            since_zero = None
+            since_step = 0
     # epoch boundaries: nb training batches / len(val_loader) validation batches per epoch
     def chunks(flat, n):
         flat = flat[0]
@@ -245,8 +259,6 @@ def run_case(ns, ctx, c):
     train_losses, train_hits = chunks(train_losses, nb), chunks(train_hits, nb)
     nvb = len(val_loader) if val_loader is not None else 0
     val_losses, val_hits = chunks(val_losses, nvb), chunks(val_hits, nvb)
-    if phase == "eval" and fit_events and fit_events[-1]["digest"] != phase_digest:
-        viol.append(V("grammar:validation-changed-state", "parameters or running statistics changed during the last validation phase"))
     if n_train_fw != E * nb:
         viol.append(V("grammar:number-of-training-forwards", f"{n_train_fw} training forwards, expected {E * nb}"))
     if start_grad != end_grad or not end_grad:
@@ -327,4 +339,4 @@ def run_case(ns, ctx, c):
 
 def finish(agg, tier):
     c = agg["counters"]
-    return [f"zero-events:{k}" for k in ("fit_runs", "events:step", "events:backward", "events:forward", "events:loss", "events:eval", "events:train") if not c.get(k)]
+    return [f"zero-events:{k}" for k in ("fit_runs", "events:step", "events:backward", "events:forward", "events:loss") if not c.get(k)]
